@@ -333,6 +333,13 @@ where
 impl<K, V> TreeBin<K, V> {
     /// Acquires write lock for tree restucturing.
     fn lock_root(&self, guard: &Guard<'_>, collector: &Collector) {
+        #[cfg(flurry_verif)]
+        crate::verif::word(
+            crate::verif::Kind::Cas,
+            crate::verif::Cell::LockState,
+            &self.lock_state as *const _ as usize,
+            Ordering::SeqCst,
+        );
         if self
             .lock_state
             .compare_exchange(0, WRITER, Ordering::SeqCst, Ordering::Relaxed)
@@ -345,6 +352,13 @@ impl<K, V> TreeBin<K, V> {
 
     /// Releases write lock for tree restructuring.
     fn unlock_root(&self) {
+        #[cfg(flurry_verif)]
+        crate::verif::word(
+            crate::verif::Kind::Store,
+            crate::verif::Cell::LockState,
+            &self.lock_state as *const _ as usize,
+            Ordering::Release,
+        );
         self.lock_state.store(0, Ordering::Release);
     }
 
@@ -353,9 +367,23 @@ impl<K, V> TreeBin<K, V> {
         let mut waiting = false;
         let mut state: i64;
         loop {
+            #[cfg(flurry_verif)]
+            crate::verif::word(
+                crate::verif::Kind::Load,
+                crate::verif::Cell::LockState,
+                &self.lock_state as *const _ as usize,
+                Ordering::Acquire,
+            );
             state = self.lock_state.load(Ordering::Acquire);
             if state & !WAITER == 0 {
                 // there are no writing or reading threads
+                #[cfg(flurry_verif)]
+                crate::verif::word(
+                    crate::verif::Kind::Cas,
+                    crate::verif::Cell::LockState,
+                    &self.lock_state as *const _ as usize,
+                    Ordering::SeqCst,
+                );
                 if self
                     .lock_state
                     .compare_exchange(state, WRITER, Ordering::SeqCst, Ordering::Relaxed)
@@ -390,6 +418,13 @@ impl<K, V> TreeBin<K, V> {
             } else if state & WAITER == 0 {
                 // we have not indicated yet that we are waiting, so we need to
                 // do that now
+                #[cfg(flurry_verif)]
+                crate::verif::word(
+                    crate::verif::Kind::Cas,
+                    crate::verif::Cell::LockState,
+                    &self.lock_state as *const _ as usize,
+                    Ordering::SeqCst,
+                );
                 if self
                     .lock_state
                     .compare_exchange(state, state | WAITER, Ordering::SeqCst, Ordering::Relaxed)
@@ -401,8 +436,12 @@ impl<K, V> TreeBin<K, V> {
                     assert!(waiter.is_null());
                 }
             } else if waiting {
+                #[cfg(flurry_verif)]
+                crate::verif::pre_park();
                 park();
             }
+            #[cfg(flurry_verif)]
+            crate::verif::spin();
             std::hint::spin_loop();
         }
     }
@@ -439,6 +478,13 @@ impl<K, V> TreeBin<K, V> {
         let bin_deref = unsafe { bin.deref() }.as_tree_bin().unwrap();
         let mut element = bin_deref.first.load(Ordering::SeqCst, guard);
         while !element.is_null() {
+            #[cfg(flurry_verif)]
+            crate::verif::word(
+                crate::verif::Kind::Load,
+                crate::verif::Cell::LockState,
+                &bin_deref.lock_state as *const _ as usize,
+                Ordering::SeqCst,
+            );
             let s = bin_deref.lock_state.load(Ordering::SeqCst);
             if s & (WAITER | WRITER) != 0 {
                 // another thread is modifying or wants to modify the tree
@@ -470,6 +516,13 @@ impl<K, V> TreeBin<K, V> {
                 } else {
                     TreeNode::find_tree_node(root, hash, key, guard)
                 };
+                #[cfg(flurry_verif)]
+                crate::verif::word(
+                    crate::verif::Kind::Rmw,
+                    crate::verif::Cell::LockState,
+                    &bin_deref.lock_state as *const _ as usize,
+                    Ordering::SeqCst,
+                );
                 if bin_deref.lock_state.fetch_add(-READER, Ordering::SeqCst) == (READER | WAITER) {
                     // we were the last reader holding up a waiting writer, so
                     // we unpark the waiting writer by granting it a token
@@ -480,6 +533,8 @@ impl<K, V> TreeBin<K, V> {
                         // Since the thread behind the `waiter` handle is
                         // currently _waiting_ on said lock, the handle will not
                         // yet be dropped.
+                        #[cfg(flurry_verif)]
+                        crate::verif::on_unpark(unsafe { waiter.deref() });
                         unsafe { waiter.deref() }.unpark();
                     }
                 }
